@@ -176,6 +176,12 @@
 (declare-fun validC (RegN Int) Bool)
 (assert (forall ((h RegN) (n Int)) (! (= (viewC h n) (view h n)) :pattern ((view h n)))))
 (assert (forall ((h RegN) (n Int)) (! (= (validC h n) (valid h n)) :pattern ((valid h n)))))
+; nodes that are values of the program (parameters, loaded pointers, call
+; results) are unfolded as well; the engine marks them with namedN
+(declare-fun namedN (Int) Bool)
+;@named github.com/cosmos/iavl.Node namedN
+(assert (forall ((h RegN) (n Int)) (! (= (viewC h n) (view h n)) :pattern ((viewC h n) (namedN n)))))
+(assert (forall ((h RegN) (n Int)) (! (= (validC h n) (valid h n)) :pattern ((validC h n) (namedN n)))))
 (define-fun cview ((h RegN) (c Int) (ck Slice)) T
   (ite (not (= c 0)) (viewC h c) (dbview (ordS h ck))))
 (define-fun lview ((h RegN) (n Int)) T (cview h (iavl_Node_leftNode (nd h n)) (iavl_Node_leftNodeKey (nd h n))))
@@ -198,16 +204,21 @@
        (wfT (lview h n)) (wfT (rview h n))))
 ;@specfn childrenOK N : Int -> Bool
 
+; shape(n): n is a node whose children are well-formed (its own stored height
+; and size need not be up to date: the state of a node under reconstruction)
+(define-fun shape ((h RegN) (n Int)) Bool
+  (and (> n 0)
+       (>= (iavl_Node_subtreeHeight (nd h n)) 0)
+       (=> (= (iavl_Node_subtreeHeight (nd h n)) 0)
+           (and (= (iavl_Node_size (nd h n)) 1) (not (= (s_base (iavl_Node_value (nd h n))) 0))))
+       (=> (> (iavl_Node_subtreeHeight (nd h n)) 0) (childrenOK h n))))
+;@specfn shape N : Int -> Bool
 ; valid(n): n is a well-formed node (heights/sizes consistent all the way down)
 (assert (forall ((h RegN) (n Int))
   (! (= (valid h n)
-        (and (> n 0)
-             (>= (iavl_Node_subtreeHeight (nd h n)) 0)
-             (=> (= (iavl_Node_subtreeHeight (nd h n)) 0)
-                 (and (= (iavl_Node_size (nd h n)) 1) (not (= (s_base (iavl_Node_value (nd h n))) 0))))
+        (and (shape h n)
              (=> (> (iavl_Node_subtreeHeight (nd h n)) 0)
-                 (and (childrenOK h n)
-                      (= (iavl_Node_subtreeHeight (nd h n)) (+ (imax (hgt (lview h n)) (hgt (rview h n))) 1))
+                 (and (= (iavl_Node_subtreeHeight (nd h n)) (+ (imax (hgt (lview h n)) (hgt (rview h n))) 1))
                       (= (iavl_Node_size (nd h n)) (+ (siz (lview h n)) (siz (rview h n))))))))
      :pattern ((valid h n)))))
 (assert (forall ((h RegN) (n Int))
@@ -282,7 +293,7 @@
        (forall ((r Int)) (! (let ((x (select (RegN_iavl_Node h) r)))
                                (and (< (s_base (iavl_Node_key x)) na) (< (s_base (iavl_Node_value x)) na) (< (s_base (iavl_Node_hash x)) na)
                                     (< (s_base (iavl_Node_leftNodeKey x)) na) (< (s_base (iavl_Node_rightNodeKey x)) na)
-                                    (<= 0 (s_base (iavl_Node_key x))) (<= 0 (s_base (iavl_Node_value x))) (<= 0 (s_base (iavl_Node_leftNodeKey x))) (<= 0 (s_base (iavl_Node_rightNodeKey x)))
+                                    (wfSlice (iavl_Node_key x)) (wfSlice (iavl_Node_value x)) (wfSlice (iavl_Node_leftNodeKey x)) (wfSlice (iavl_Node_rightNodeKey x)) (wfSlice (iavl_Node_hash x))
                                     (<= 0 (iavl_Node_nodeKey x)) (< (iavl_Node_nodeKey x) na)))
                             :pattern ((select (RegN_iavl_Node h) r))))
        (forall ((r Int)) (! (=> (>= r na) (not (select inp r))) :pattern ((select inp r))))))
@@ -356,3 +367,37 @@
 ;     (lemma wf_bounds in avl.lemmas, by induction on the tree)
 (assert (forall ((t T)) (! (=> (and (wfT t) (not ((_ is TNil) t))) (and (>= (siz t) 1) (>= (hgt t) 0) (=> ((_ is Inner) t) (>= (hgt t) 1))))
   :pattern ((wfT t)))))
+
+;  (6) a node without in-memory children depends on nothing but its own record
+(assert (forall ((h0 RegN) (h1 RegN) (na0 Int) (x Int) (r Int))
+  (! (=> (and (nframeX h0 h1 na0 x) (< 0 r) (< r na0) (not (= r x)) (validC h0 r)
+              (= (iavl_Node_leftNode (select (RegN_iavl_Node h0) r)) 0) (= (iavl_Node_rightNode (select (RegN_iavl_Node h0) r)) 0))
+         (and (validC h1 r) (= (viewC h1 r) (viewC h0 r))))
+     :pattern ((nframeX h0 h1 na0 x) (viewC h1 r)))))
+(assert (forall ((h0 RegN) (h1 RegN) (na0 Int) (x Int) (r Int))
+  (! (=> (and (nframeX h0 h1 na0 x) (< 0 r) (< r na0) (not (= r x)) (validC h0 r)
+              (= (iavl_Node_leftNode (select (RegN_iavl_Node h0) r)) 0) (= (iavl_Node_rightNode (select (RegN_iavl_Node h0) r)) 0))
+         (and (validC h1 r) (= (viewC h1 r) (viewC h0 r))))
+     :pattern ((nframeX h0 h1 na0 x) (validC h1 r)))))
+; indep(c,x): rewriting node x cannot change the view of node c — x has no
+; incoming pointer, or c lies below x in a heap closed at x, or c has no
+; in-memory children.
+(define-fun indep ((h RegN) (inp (Array Int Bool)) (c Int) (x Int)) Bool
+  (and (not (= c x))
+       (or (not (select inp x))
+           (and (< c x) (closed h x))
+           (and (= (iavl_Node_leftNode (select (RegN_iavl_Node h) c)) 0) (= (iavl_Node_rightNode (select (RegN_iavl_Node h) c)) 0)))))
+;@specfn indep N ghost:inptr : Int Int -> Bool
+; keyed rotations: the rotation of the node (k, l, r)
+(define-fun rotRk ((k Cnt) (l T) (r T)) T (mk (i_key l) (i_left l) (mk k (i_right l) r)))
+(define-fun rotLk ((k Cnt) (l T) (r T)) T (mk (i_key r) (mk k l (i_left r)) (i_right r)))
+;@specfn rotRk : Cnt T T -> T
+;@specfn rotLk : Cnt T T -> T
+; balk: bal over the parts of a node whose stored height/size are being recomputed
+(define-fun balk ((k Cnt) (l T) (r T)) T
+  (ite (> (- (hgt l) (hgt r)) 1)
+       (ite (>= (balf l) 0) (rotRk k l r) (rotRk k (rotL l) r))
+  (ite (< (- (hgt l) (hgt r)) (- 1))
+       (ite (<= (balf r) 0) (rotLk k l r) (rotLk k l (rotR r)))
+       (mk k l r))))
+;@specfn balk : Cnt T T -> T
